@@ -27,6 +27,9 @@ type Result struct {
 	Pos     string  `json:"pos,omitempty"`
 	Text    string  `json:"text,omitempty"`
 	Query   string  `json:"-"`
+	replayed   bool
+	replayTest string
+	replayOut  string
 }
 
 func (o *Obligation) Query(withModel bool) string {
@@ -58,6 +61,9 @@ type solverSpec struct {
 
 var solvers = map[string]solverSpec{
 	"z3-new": {"z3-new", func(f string, t int) []string { return []string{"z3-new", fmt.Sprintf("-T:%d", t), f} }},
+	"z3-em":  {"z3-em", func(f string, t int) []string {
+		return []string{"z3-new", "smt.mbqi=false", "smt.auto_config=false", fmt.Sprintf("-T:%d", t), f}
+	}},
 	"z3":     {"z3", func(f string, t int) []string { return []string{"z3", fmt.Sprintf("-T:%d", t), f} }},
 	"cvc5":   {"cvc5", func(f string, t int) []string { return []string{"cvc5", fmt.Sprintf("--tlimit=%d", t*1000), f} }},
 }
